@@ -3,7 +3,7 @@ import numpy as np
 
 from . import _rfa as R
 from . import _weaver_ops as W
-from .. import gen, tol
+from .. import callform, gen, tol
 from ..core import fp_watch
 
 PROPERTY = "C14"
@@ -40,7 +40,7 @@ def run_case(ctx, kind_, idx):
     from traffic_weaver import process
     rng = ctx.rng(kind_, idx)
     cid = ctx.case_id(kind_, idx)
-    x, y, meta = R.gen_series(rng, 2, 60, ties_share=0.2)
+    x, y, meta = R.gen_series(rng, 2, 60, ties_share=0.2, long_share=R.LONG_SHARE)
     if abs(x[0]) < 1e-12 and rng.integers(0, 5):
         x = x + float(rng.choice([5.0, -3.0, 100.0, float(rng.normal(0, 20))]))
     which = ["trend", "trend", "trend_additive", "shift_scale", "normalize"][int(rng.integers(0, 5))]
@@ -72,7 +72,7 @@ def run_case(ctx, kind_, idx):
                         x, y = (np.array(a, dtype=float).copy() for a in wv.get())
                         if normalized and len(x) < 2:
                             return
-                    wv.trend(f) if omit else wv.trend(f, normalized=normalized)
+                    wv.trend(f) if omit else callform.call(rng, wv.trend, "Weaver.trend", [f], {"normalized": normalized}, p_pos=0.4)
                     gx, gy = wv.get()
                 elif use_linear:
                     a_lin = td["coef"][0]
@@ -80,11 +80,14 @@ def run_case(ctx, kind_, idx):
                     info["linear_trend_a"] = a_lin
                     xin, _k = gen.as_container(rng, x)
                     yin, _k2 = gen.as_container(rng, y)
-                    gx, gy = process.linear_trend(xin, yin, a_lin) if omit else process.linear_trend(xin, yin, a_lin, normalized)
+                    gx, gy = process.linear_trend(xin, yin, a_lin) if omit else \
+                        callform.call(rng, process.linear_trend, "process.linear_trend", [xin, yin, a_lin],
+                                      {"normalized": normalized}, p_pos=0.4)
                 else:
                     xin, _k = gen.as_container(rng, x)
                     yin, _k2 = gen.as_container(rng, y)
-                    gx, gy = process.trend(xin, yin, f) if omit else process.trend(xin, yin, f, normalized)
+                    gx, gy = process.trend(xin, yin, f) if omit else \
+                        callform.call(rng, process.trend, "process.trend", [xin, yin, f], {"normalized": normalized}, p_pos=0.4)
                 ctx.judged()
                 ctx.monitor("c14:trend")
                 span = float(x[-1] - x[0])
@@ -183,11 +186,12 @@ def run_case(ctx, kind_, idx):
                         getattr(wv, "scale_" + target)(c)
                         a = a * c
                         info["scaled_first"] = c
-                    getattr(wv, "normalize_" + target)(lo, hi)
+                    callform.call(rng, getattr(wv, "normalize_" + target), "Weaver.normalize_" + target, [lo, hi])
                     g = wv.get()[0 if target == "x" else 1]
                 else:
                     ain, _k = (a, "as is") if int_case else gen.as_container(rng, a)
-                    g = process.normalize(ain) if defaults else process.normalize(ain, lo, hi)
+                    g = process.normalize(ain) if defaults else \
+                        callform.call(rng, process.normalize, "process.normalize", [ain], {"min_val": lo, "max_val": hi}, p_pos=0.5)
                 ctx.judged()
                 ctx.monitor("c14:normalize")
                 rng_t = hi - lo
